@@ -306,6 +306,12 @@ macro_rules! variant {
                 fn boxed_clone(&self) -> G {
                     Box::new(GObj(self.0.clone()))
                 }
+                fn boxed_clone_from(&self, pre: &[u8]) -> G {
+                    let mut dst = Gen::new();
+                    dst.update(pre);
+                    dst.clone_from(&self.0);
+                    Box::new(GObj(dst))
+                }
                 fn state(&self) -> Option<GenState> {
                     #[cfg(fast_tlsh_verif)]
                     {
